@@ -24,7 +24,7 @@ impl Knobs {
         Knobs {
             max_gates: 12,
             max_commits: 4,
-            max_blocks: 2,
+            max_blocks: 4,
             max_ops: 14,
             expr_depth: 3,
             userdata: true,
@@ -36,7 +36,7 @@ impl Knobs {
         Knobs {
             max_gates: 40,
             max_commits: 8,
-            max_blocks: 3,
+            max_blocks: 5,
             max_ops: 40,
             expr_depth: 4,
             userdata: true,
